@@ -69,6 +69,7 @@ type Case struct {
 	Engine string    `json:"engine"`
 	Alloc  string    `json:"alloc"`         // default | guard | guard-moving
 	Mem    string    `json:"mem,omitempty"` // "" = the module defines its memory | "imported" = another instance ("owner") defines it
+	Shared bool      `json:"shared,omitempty"` // the memory is a shared one (threads proposal): never moved, allocated up to its maximum at once
 }
 
 // ---------------- reference model ----------------
@@ -540,7 +541,7 @@ func buildWaiter() []byte {
 // buildOwner is the instance that defines the memory in "imported" mode.
 func buildOwner(c *Case) []byte {
 	m := &wasmenc.Module{}
-	m.Mems = [][]byte{wasmenc.Limits(c.Pages, c.Max, false)}
+	m.Mems = [][]byte{wasmenc.Limits(c.Pages, c.Max, c.Shared)}
 	m.Exports = append(m.Exports, wasmenc.Export{Name: "memory", Kind: wasmenc.KMem, Idx: 0})
 	m.ExportFunc("grow", m.AddFunc([]byte{wasmenc.I32}, nil, nil, wasmenc.NewB().LocalGet(0).MemoryGrow().Drop().Bytes()))
 	return m.Encode()
@@ -557,7 +558,7 @@ func build(c *Case) []byte {
 	if c.Mem == "imported" {
 		// callgrow crosses into the instance that owns the memory
 		fGrow = m.ImportFunc("owner", "grow", []byte{wasmenc.I32}, nil)
-		m.Imports = append(m.Imports, wasmenc.Import{Mod: "owner", Name: "memory", Kind: wasmenc.KMem, Desc: wasmenc.Limits(c.Pages, c.Max, false)})
+		m.Imports = append(m.Imports, wasmenc.Import{Mod: "owner", Name: "memory", Kind: wasmenc.KMem, Desc: wasmenc.Limits(c.Pages, c.Max, c.Shared)})
 	} else {
 		fGrow = m.AddFunc([]byte{wasmenc.I32}, nil, nil, growBody)
 	}
@@ -573,7 +574,7 @@ func build(c *Case) []byte {
 	run := m.AddFunc([]byte{wasmenc.I32, wasmenc.I32, wasmenc.I32}, []byte{wasmenc.I64}, locals, b.Bytes())
 	m.ExportFunc("run", run)
 	if c.Mem != "imported" {
-		m.Mems = [][]byte{wasmenc.Limits(c.Pages, c.Max, false)}
+		m.Mems = [][]byte{wasmenc.Limits(c.Pages, c.Max, c.Shared)}
 	}
 	m.Exports = append(m.Exports, wasmenc.Export{Name: "memory", Kind: wasmenc.KMem, Idx: 0}, wasmenc.Export{Name: "prog", Kind: wasmenc.KGlobal, Idx: 0})
 	m.Globals = []wasmenc.Global{{Type: wasmenc.I32, Mut: true, Init: wasmenc.NewB().I32Const(0).Bytes()}}
@@ -1021,6 +1022,15 @@ func prop(t *rapid.T) {
 		c.Mem = "imported"
 	}
 	c.Alloc = pick(t, "alloc", []string{"default", "guard", "guard", "guard-moving"})
+	if !big && uni(t, 5, "sharedmem") == 4 {
+		// a shared memory needs a maximum; its buffer never moves and extends to the maximum, so
+		// the bytes between the current size and the maximum exist in the host buffer
+		c.Shared = true
+		c.Max = int64(c.Pages) + int64(rapid.IntRange(1, 3).Draw(t, "sharedroom"))
+		if c.Alloc == "guard-moving" {
+			c.Alloc = "guard"
+		}
+	}
 	if big && c.Alloc != "guard" {
 		c.Alloc = "guard" // big memories only with the lazily committed in-place guard allocator
 	}
@@ -1074,6 +1084,9 @@ func prop(t *rapid.T) {
 	if c.Mem == "imported" {
 		lbl = append(lbl, "imported-memory")
 	}
+	if c.Shared {
+		lbl = append(lbl, "shared-memory")
+	}
 	if strings.Contains(flat, "callgrow") {
 		lbl = append(lbl, "grow-in-callee")
 	}
@@ -1098,7 +1111,7 @@ func prop(t *rapid.T) {
 	default:
 		lbl = append(lbl, "accesses-completed=0")
 	}
-	evid.Case(evid.Hash64(c.Pages, c.Max, fmt.Sprint(c.Params), flat, c.Engine, c.Alloc), nt, lbl...)
+	evid.Case(evid.Hash64(c.Pages, c.Max, fmt.Sprint(c.Params), flat, c.Engine, c.Alloc, c.Shared, c.Mem), nt, lbl...)
 	if nt {
 		evid.Sample("script", 2, c)
 	}
